@@ -307,6 +307,35 @@ func init() {
 			return
 		}
 		c.Correspondence("exact datagram length: every datagram of the real writeOneSegment (bench: open/close/data/ack × MTU and padding boundaries × every low-entropy mode, many padding draws; and real sessions) has len == Gen.Wire.packet{Session,Data}SegLen of its decoded fields; the real Write/writeChunk cutting == Chunk.writeSegments == Gen.Wire.cut on k·f−1, k·f, k·f+1 and the piggyback / chunk boundaries")
+		// Padding.maxPadTP (the budget PadOK uses) vs the real maxPaddingSizeWithTrafficPattern, inside the C14 run
+		for _, mtu := range []int{1280, 1281, 1400, 1499, 1500} {
+			for _, frag := range []int{0, 1, mtu - 88 - 256, mtu - 88 - 255, mtu - 88 - 1, mtu - 88, mtu - 87} {
+				for _, ex := range []int{0, 1, 254, 255} {
+					for _, cfg := range []int{-2, -1, 0, 1, 254, 255, 300} { // -2 = unset
+						for pos := 0; pos <= 1; pos++ {
+							var tp *appctlpb.TrafficPattern
+							cs := "-"
+							if cfg != -2 {
+								tp = &appctlpb.TrafficPattern{Padding: &appctlpb.PaddingPattern{}}
+								if pos == 0 {
+									tp.Padding.MaxMiddlePaddingLen = proto.Int32(int32(cfg))
+								} else {
+									tp.Padding.MaxEndPaddingLen = proto.Int32(int32(cfg))
+								}
+								cs = fmt.Sprint(cfg)
+							}
+							base := protocol.VerifMaxPaddingSize(mtu, 2, frag, ex)
+							got := protocol.VerifMaxPaddingSizeWithTrafficPattern(mtu, 2, frag, ex, tp, pos)
+							c.Compared()
+							c.Eval(fmt.Sprintf("maxpad/%d/%d/%d/%d/%d", mtu, frag, ex, cfg, pos), true)
+							if m := c.Model.Ask("pat-maxpad %d %s", base, cs); m != fmt.Sprintf("ok %d", got) {
+								c.Disagree("C14/corr/maxpad", fmt.Sprintf("Padding.maxPadTP %q, real %d (mtu %d fragment %d existing %d configured %s position %d)", m, got, mtu, frag, ex, cs, pos), c14Case{Kind: "tie-padding", MTU: mtu, Transport: 2, N: frag, P1: ex})
+							}
+						}
+					}
+				}
+			}
+		}
 		var cases []c14ExactCase
 		maxima := [][2]int{{-1, -1}, {0, 0}, {1, 1}, {254, 254}, {255, 255}, {-1, 255}, {255, 0}}
 		draws := c.N(12, 60)
